@@ -3,12 +3,14 @@ package chain
 // Library of fixed Gno realms used by chain histories. They are small but
 // cover: state growth and shrink (objects attached/detached), several realms
 // touched in one transaction, panics after writes, events, coins held by a
-// realm, realm-issued denoms, and chain params.
+// realm, realm-issued denoms, chain params, and caller-supplied function /
+// interface values kept in realm state (hk).
 
 const PathCtr = "gno.land/r/vv/ctr"
 const PathKV = "gno.land/r/vv/kv"
 const PathMulti = "gno.land/r/vv/multi"
 const PathBank = "gno.land/r/vv/bnk"
+const PathHk = "gno.land/r/vv/hk"
 
 const RealmCtr = `package ctr
 
@@ -195,10 +197,57 @@ func Burn(cur realm, from address, amt int64) {
 func Render(path string) string { return "" }
 `
 
+// RealmHk keeps caller-supplied values of function and interface type in
+// package variables and invokes them later (nothing is recovered): whatever a
+// caller manages to get persisted here must behave identically on every node,
+// whatever that node's cache/restart history is.
+const RealmHk = `package hk
+
+type Namer interface{ Name() string }
+
+var (
+	F    func() string
+	Any  interface{}
+	Runs int
+)
+
+func Set(cur realm, f func() string) { F = f }
+
+func SetAny(cur realm, v Namer) { Any = v }
+
+func Keep(cur realm, v interface{}) { Any = v }
+
+// SetOwn stores a closure made by this realm's own code.
+func SetOwn(cur realm, s string) {
+	F = func() string { s += "."; return s }
+}
+
+// Fire invokes whatever is stored.
+func Fire(cur realm) string {
+	Runs++
+	s := "fire"
+	if F != nil {
+		s += " F=" + F()
+	}
+	switch a := Any.(type) {
+	case func(string) string:
+		s += " R=" + a("")
+	case Namer:
+		s += " N=" + a.Name()
+	case string:
+		s += " S=" + a
+	}
+	return s
+}
+
+func Clear(cur realm) { F, Any = nil, nil }
+`
+
 // Realms lists the library in deployment order.
 var Realms = []struct{ Path, Src string }{
 	{PathCtr, RealmCtr},
 	{PathKV, RealmKV},
 	{PathMulti, RealmMulti},
 	{PathBank, RealmBank},
+	{PathHk, RealmHk},
 }
